@@ -116,6 +116,15 @@ func (group *Group) OnAvPacketFromPsPubSession(pkt *base.AvPacket) {
 func (group *Group) OnPatPmt(b []byte) {
 	group.patpmt = b
 
+	// a subscriber that has not been served yet gets the tables together with its first packets (see
+	// feedTsPackets). One that has been served before stayed attached while the input of this stream was
+	// replaced: it still holds the tables of the previous input, whose tracks and codecs may differ
+	for session := range group.httptsSubSessionSet {
+		if !session.IsFresh {
+			session.Write(b)
+		}
+	}
+
 	if group.hlsMuxer != nil {
 		group.hlsMuxer.FeedPatPmt(b)
 	}
